@@ -13,6 +13,7 @@ mod="harness.$(echo "$prop" | tr 'A-Z' 'a-z')"
 # Everything a run creates with tempfile (storage files, per-worker directories, fresh interpreters) goes into one
 # directory of this run and is removed when the run ends, whatever way the harness processes exit.
 run_tmp="$(mktemp -d "${TMPDIR:-/tmp}/awverif-run-XXXXXX")" || exit 2
+chmod 755 "$run_tmp"   # C20's fault stream reads a file as an unprivileged uid: the path must stay traversable
 export TMPDIR="$run_tmp"
 trap 'rm -rf "$run_tmp"' EXIT
 # A verdict is "exit 0" or "exit 1 with a VIOLATION line".  A harness process that dies without a verdict
